@@ -4,12 +4,16 @@ mon_tool="$1"; shift
 mon_n=$(( $(cat "$MON_LOG/count.$mon_tool" 2>/dev/null || echo 0) + 1 ))
 echo $mon_n > "$MON_LOG/count.$mon_tool"
 printf '%s\t%s\t%s\t%s\n' "$RUN_ID" "$mon_tool" "$(pwd)" "$*" >> "$MON_LOG/commands.log"
+# FAIL entries: tool | tool@n (n-th invocation) | tool+late (the tool does its work, THEN dies: a job crashing after it created output)
+mon_fail_mode=""
 mon_should_fail() {
   local spec
   for spec in ${FAIL//,/ }; do
+    local mode="early"
+    if [[ "$spec" == *+late ]]; then mode="late"; spec="${spec%+late}"; fi
     local t="${spec%@*}" k=""
     [[ "$spec" == *@* ]] && k="${spec#*@}"
-    if [ "$t" == "$mon_tool" ] && { [ -z "$k" ] || [ "$k" == "$mon_n" ]; }; then return 0; fi
+    if [ "$t" == "$mon_tool" ] && { [ -z "$k" ] || [ "$k" == "$mon_n" ]; }; then mon_fail_mode=$mode; return 0; fi
   done
   return 1
 }
